@@ -312,8 +312,23 @@ def check_many(rep, funcs):
     n = 0
     # element type: the memoryview the values are read from
     elem_t = None
+    vname, oname = "values", "result_view"
+    try:
+        from sa import kway as _kw
+        _k = _kw.KWay(f)
+        _k.failure = None
+        try:
+            _k.analyse()
+            _k.prelude()
+        except _kw.Undecided as e:
+            _k.failure = str(e)
+        vname = getattr(_k, "roles", {}).get("V", vname)
+        oname = getattr(_k, "roles", {}).get("OUT", oname)
+    except Exception:
+        _k = None
+    f.kway = _k
     for x in walk(f.node.body):
-        if tname(x) == "SingleAssignmentNode" and tname(x.lhs) == "NameNode" and str(x.lhs.type).endswith("[:]") and x.lhs.name == "values":
+        if tname(x) == "SingleAssignmentNode" and tname(x.lhs) == "NameNode" and str(x.lhs.type).endswith("[:]") and x.lhs.name == vname:
             elem_t = str(x.lhs.type)[:-3]
     loops = [x for x in walk(f.node.body) if tname(x) == "WhileStatNode"]
     if not loops or elem_t is None:
@@ -391,9 +406,23 @@ def check_many(rep, funcs):
                 rep.undecided("R-C08-j", w, "early return of %s" % v.name, "guard not recognised")
         else:
             rep.undecided("R-C08-j", w, "early return in the multi-way union", "neither the empty result nor the merged prefix, and not a recognised shortcut")
-    n += check_many_layout(rep, f, where, loop)
+    # R-C08-h / R-C08-i: from the k-way analysis when it reached the prelude (role-based, independent of local names),
+    # otherwise from the older syntactic rules
+    kparts = {}
+    for status, part, line, cons, detail, wit in (_k.obl if _k is not None else []):
+        kparts.setdefault(part, []).append((status, line, cons, detail, wit))
+    if kparts.get("empty") and any("cursor[a] starts" in c for st, l, c, d, w in kparts.get("layout", [])):
+        for st, l, c, d, w in kparts["empty"]:
+            n += 1
+            rep.add("R-C08-h", "%s@%d" % (where, l), c, st, d, True, w)
+        for st, l, c, d, w in kparts["layout"]:
+            if "cursor[a] starts" in c or "limit[a] is" in c:
+                n += 1
+                rep.add("R-C08-i", "%s@%d" % (where, l), c, st, d, True, w)
+    else:
+        n += check_many_layout(rep, f, where, loop)
     # duplicates: every emission needs either (a) a loop advancing all arrays whose head equals the minimum, or (b) a guard comparing with the previously emitted value
-    emits = [x for x in walk(loop.body) if tname(x) == "SingleAssignmentNode" and tname(x.lhs) == "MemoryViewIndexNode" and tname(x.lhs.base) == "NameNode" and x.lhs.base.name == "result_view"]
+    emits = [x for x in walk(loop.body) if tname(x) == "SingleAssignmentNode" and tname(x.lhs) == "MemoryViewIndexNode" and tname(x.lhs.base) == "NameNode" and x.lhs.base.name == oname]
     n += 1
     if not emits:
         rep.undecided("R-C08-f", where, "emission", "no store into the result buffer found in the merge loop")
@@ -406,7 +435,8 @@ def check_many(rep, funcs):
         for x in walk(loop.body):
             if tname(x) in ("ForInStatNode", "ForFromStatNode"):
                 has_eq = any(tname(y) == "PrimaryCmpNode" and y.operator == "==" and ename in (getattr(unwrap(y.operand1), "name", None), getattr(unwrap(y.operand2), "name", None)) for y in walk(x.body))
-                has_adv = any(tname(y) == "InPlaceAssignmentNode" and tname(y.lhs) == "MemoryViewIndexNode" and y.operator == "+" for y in walk(x.body))
+                has_adv = any((tname(y) == "InPlaceAssignmentNode" and tname(y.lhs) == "MemoryViewIndexNode" and y.operator == "+")
+                              or (tname(y) == "SingleAssignmentNode" and tname(y.lhs) == "MemoryViewIndexNode" and tname(unwrap(y.rhs)) == "AddNode") for y in walk(x.body))
                 if has_eq and has_adv:
                     adv_all = True
         # (b) emission guarded by a comparison of the emitted value with another value variable (last emitted)
@@ -483,14 +513,17 @@ def check_kway(rep, funcs):
     if not f:
         return 0
     where = "set_operations:set_union_merge_many"
-    k = None
-    try:
-        k = kway.KWay(f[0])
-        k.analyse()
-        k.prelude()
-    except kway.Undecided as e:
-        if k is None or not any(o[0] == "VIOLATED" for o in k.obl):
-            rep.undecided("R-C08-k", where, "k-way merge schema (reset / scan / exit / emit / advance)", "outside the recognised schema: %s" % e)
+    k = getattr(f[0], "kway", None)
+    failure = getattr(k, "failure", None) if k is not None else None
+    if k is None:
+        try:
+            k = kway.KWay(f[0])
+            k.analyse()
+            k.prelude()
+        except kway.Undecided as e:
+            failure = str(e)
+    if failure is not None and (k is None or not any(o[0] == "VIOLATED" for o in k.obl)):
+        rep.undecided("R-C08-k", where, "k-way merge schema (reset / scan / exit / emit / advance)", "outside the recognised schema: %s" % failure)
     n = 0
     for status, part, line, cons, detail, wit in (k.obl if k is not None else []):
         n += 1
